@@ -112,6 +112,23 @@ def _decode_bool(s, truth, sblock, raw):
     while s[0] == "unop" and s[1] == "Not":
         s = _strip_var(s[2])
         truth = (not truth) if truth is not None else None
+    # x == true / x == false / x != true / x != false  ->  x / !x
+    while s[0] == "binop" and s[1] in ("Eq", "Ne"):
+        a, b = _strip_var(s[2]), _strip_var(s[3])
+        k = None
+        if b[0] == "const" and b[1] == "bool":
+            k, other = b[2], a
+        elif a[0] == "const" and a[1] == "bool":
+            k, other = a[2], b
+        if k is None:
+            break
+        same = (s[1] == "Eq") == bool(k)
+        s = other
+        if not same and truth is not None:
+            truth = not truth
+        while s[0] == "unop" and s[1] == "Not":
+            s = _strip_var(s[2])
+            truth = (not truth) if truth is not None else None
     if s[0] == "call":
         return Lit("call", s, truth, None, sblock, raw)
     if s[0] == "binop":
